@@ -1,6 +1,8 @@
-from .. import pure
+import os
+from .. import pure, common as C
 
-KIND = {"1": "v4-request", "2": "v5-request", "3": "v5-methods", "4": "writers", "5": "udp-parse", "6": "udp-build"}
+KIND = {"1": "v4-request", "2": "v5-request", "3": "v5-methods", "4": "writers", "5": "udp-parse", "6": "udp-build",
+        "7": "client-listener-dialog"}
 
 
 class C18(pure.Spec):
@@ -10,7 +12,7 @@ class C18(pure.Spec):
                 "C18_v4_read_exact", "C18_v4_read_prefix", "C18_v5_reply_bytes", "C18_v5_reply_unspecified",
                 "C18_v4_reply_bytes", "C18_v5_method_reply", "C18_v5_methods_exact",
                 "C18_udp_response_is_rfc", "C18_udp_client_roundtrip", "C18_udp_parse_exact",
-                "C18_udp_parse_fragment", "C18_udp_parse_never_panics"]
+                "C18_udp_parse_fragment", "C18_udp_parse_never_panics", "C18_client_selects_noauth"]
     crate = "pure"
     binary = "vh-pure"
     design_ref = "DESIGN.md §5 C18"
@@ -20,14 +22,27 @@ class C18(pure.Spec):
             "(UnexpectedEof) and an open one (Pending), delivered in reads of at most 3 bytes; every reply code through "
             "every writer with IPv4/IPv6 bound addresses; UDP relay headers of every address type, fragment octets, "
             "truncations, random; UDP relay responses for IPv4/IPv6 targets and payloads 0..1500 checked by an independent "
-            "client-side parser. Cells = (message kind, outcome class, input-length class); distinct by case hash.")
+            "client-side parser. The tunnel client's own use of these functions: the real client_main_inner with a SOCKS listener "
+            "(and no tunnel) is sent version 5 greetings with 'no authentication' at every position of lists of 1-5 methods and "
+            "without it, followed by requests that need no tunnel (BIND, unknown commands; IPv4, domain, IPv6; truncated), in two "
+            "writes; the bytes it answers until it closes the connection are compared with Socks/Model.v client_dialog5. "
+            "Cells = (message kind, outcome class, input-length class); distinct by case hash.")
     assumptions = ["IPv6 (and IPv4) host strings are canonicalised by parsing them back with std::net (text form of "
                    "Ipv6Addr::to_string is not modelled); IPv4 text is additionally compared byte for byte",
                    "the io error context strings are not compared, only the error class"]
 
+    def build(self, tier):
+        super().build(tier)
+        C.cargo_build(os.path.join(C.VERIF, "harness", "app"), "release")
+
+    def _listener_dialog(self, tier, seed):
+        n = 150 if tier == "quick" else 3000
+        return C.run_harness([os.path.join(C.TARGET, "app", "release", "vh-app"), "socksd", "--seed", str(seed), "--n", str(n)])
+
     def runs(self, tier, seed):
         n = 12000 if tier == "quick" else 400000
         return [
+            ("client-listener", "release", lambda: self._listener_dialog(tier, seed), None),
             ("release", "release", ["socks", "--seed", str(seed), "--n", str(n), "--mode", "exhaustive"], None),
             ("debug", "dev", ["socks", "--seed", str(int(seed) + 1), "--n", str(n // 4)], None),
         ]
@@ -60,6 +75,8 @@ class C18(pure.Spec):
             if i[:2] == ["1", "0"] or m[:2] == ["1", "0"]:
                 return True, k + "-error-vs-wait", "reader fails where it must wait for input (or vice versa)"
             return False, k + "-error-kind", "reader fails with a different error / reply than modelled"
+        if t[1] == "7":
+            return True, "client-listener-dialog", "the client's SOCKS5 listener answers a greeting / request differently from RFC 1928 (implementation %s, expected %s)" % (" ".join(i[:14]), " ".join(m[:14]))
         if t[1] == "4":
             return True, "reply-bytes", "reply is not byte-exact per the RFC"
         if t[1] == "5":
